@@ -185,7 +185,15 @@ class AsyncIOClient(ABC):
 
         async with self.lock:
             if self._state == State.CONNECTED:
-                return
+                if self._receive_task is not None and not self._receive_task.done():
+                    return
+                # A previous connect() was cancelled by its caller after CONNECTED had been reported and before the
+                # receive loop was started: nothing reads from that link.  Give it up and connect again.
+                self.logger.info("Connected but no receive loop is running. Reconnecting.")
+                self._shut_link()
+                await self._update_state(State.DISCONNECTED)
+                if self._state == State.CLOSED:
+                    return
                 
             # Use AsyncRetrying for proper async behavior
             async for attempt in AsyncRetrying(
